@@ -67,6 +67,9 @@ def gen_file(rng, i):
         if k == 'float64':
             c['values'] = [v if v not in ('inf', '-inf') else 1e300 for v in c['values']]
         cols.append(c)
+    if rng.random() < 0.12:
+        # a LAST column whose text can end in a backslash (tdda's CSV reader treats that as an escape at first, then retries)
+        cols.append({'name': 'tail', 'kind': 'str_obj', 'nulls': 'none', 'values': [rng.choice(['x\\', 'plain', 'a b\\', 'q', '\\']) for _ in range(n)]})
     return {'cols': cols, 'nrows': n, 'fmt': ['csv', 'parquet'][i % 2], 'choices': rng.randrange(10 ** 9)}
 
 
@@ -343,8 +346,15 @@ def run_file(ctx, spec, idx):
         if r < 0.25:
             flags.append('--no-output-fields')
             kw['output_fields'] = None
-        elif r < 0.55:
+        elif r < 0.55 or ('--interleave' in flags and r < 0.8):
             ofs = [c['name'] for c in spec['cols'] if rng.random() < 0.6] or [spec['cols'][0]['name']]
+            if '--interleave' in flags and rng.random() < 0.7:
+                ofs = [c['name'] for c in spec['cols']]          # (interleaving only acts when every original column is written)
+                rng.shuffle(ofs)
+            if rng.random() < 0.4:
+                ofs = [c['name'] for c in spec['cols']]          # every column named ...
+            if rng.random() < 0.5:
+                rng.shuffle(ofs)                                  # ... and not necessarily in the file's order
             tail = ['--output-fields'] + ofs
             kw['output_fields'] = ofs
         ofmt = rng.choice(['csv', 'csv', 'parquet', 'dash'])
@@ -416,7 +426,7 @@ def run_file(ctx, spec, idx):
                             rec.violation('row_numbers_do_not_refer_to_the_input_rows',
                                           {'case': case, 'mech': dict(mech, write_all=bool(kw.get('write_all'))),
                                            'facts': {'RowNumber': got_rn[:12], 'failing_input_rows': want_rn[:12]}})
-                except (ValueError, KeyError, OSError):
+                except (ValueError, KeyError, OSError, TypeError):
                     pass
             if res.out != lib_stdout + str(v) + '\n':
                 rec.violation('detect_report_differs', {'case': case, 'mech': mech, 'facts': {'cli': res.out[-400:], 'library': str(v)[-400:]}})
